@@ -9,23 +9,36 @@ From Coq Require Import List Arith Bool.
 Import ListNotations.
 
 (* raw engine: nodes with deps (strong, upstream) and dependents (registration order) *)
-Record node := { deps : list nat; dependents : list nat; visited : bool; done : bool; changed : bool;
-                 fire : option nat }.
-Definition graph := list node.
-Record st := { g : graph; queue : list nat; log : list nat (* update executions, newest first *) }.
+(* the firing slot holds a value of an arbitrary type Val (implicit argument of everything below) *)
+Record node (Val : Type) := { deps : list nat; dependents : list nat; visited : bool; done : bool; changed : bool;
+                 fire : option Val }.
+Arguments deps {Val} _.
+Arguments dependents {Val} _.
+Arguments visited {Val} _.
+Arguments done {Val} _.
+Arguments changed {Val} _.
+Arguments fire {Val} _.
+Arguments Build_node {Val} _ _ _ _ _ _.
+Definition graph (Val : Type) := list (node Val).
+Record st (Val : Type) := { g : graph Val; queue : list nat; log : list nat (* update executions, newest first *) }.
+Arguments g {Val} _.
+Arguments queue {Val} _.
+Arguments log {Val} _.
+Arguments Build_st {Val} _ _ _.
 
-Definition get (gr : graph) (n : nat) : node := nth n gr {| deps := []; dependents := []; visited := true; done := true; changed := false; fire := None |}.
-Fixpoint set (gr : graph) (n : nat) (x : node) : graph :=
+Definition get {Val} (gr : graph Val) (n : nat) : node Val := nth n gr {| deps := []; dependents := []; visited := true; done := true; changed := false; fire := None |}.
+Fixpoint set {Val} (gr : graph Val) (n : nat) (x : node Val) : graph Val :=
   match gr, n with [], _ => [] | _ :: t, 0 => x :: t | y :: t, S k => y :: set t k x end.
 
 (* update rule of a derived node: a function of the dependencies' firings; must be None if none fired *)
-Definition rule := nat -> list (option nat) -> option nat.
+Definition rule (Val : Type) := nat -> list (option Val) -> option Val.
 
 Section E.
-  Variable F : rule.
+  Context {Val : Type}.
+  Variable F : rule Val.
   Variable orig : bool.   (* true = algorithm before repair F1: always walk dependents *)
 
-  Definition run_update (s : st) (n : nat) : st :=
+  Definition run_update (s : st Val) (n : nat) : st Val :=
     let x := get (g s) n in
     let r := F n (map (fun d => fire (get (g s) d)) (deps x)) in
     let x' := {| deps := deps x; dependents := dependents x; visited := visited x; done := done x;
@@ -33,12 +46,12 @@ Section E.
                  fire := match r with Some _ => r | None => fire x end |} in
     {| g := set (g s) n x'; queue := queue s; log := n :: log s |}.
 
-  Definition mark (s : st) (n : nat) (v d : bool) : st :=
+  Definition mark (s : st Val) (n : nat) (v d : bool) : st Val :=
     let x := get (g s) n in
     {| g := set (g s) n {| deps := deps x; dependents := dependents x; visited := v; done := d; changed := changed x; fire := fire x |};
        queue := queue s; log := log s |}.
 
-  Fixpoint update_node (fuel : nat) (s : st) (n : nat) (as_dep : bool) : option st :=
+  Fixpoint update_node (fuel : nat) (s : st Val) (n : nat) (as_dep : bool) : option (st Val) :=
     match fuel with 0 => None | S f =>
       if visited (get (g s) n) then Some s else
       let s1 := mark s n true false in
@@ -59,7 +72,7 @@ Section E.
       end
     end.
 
-  Fixpoint drain (rounds fuel : nat) (s : st) : option st :=
+  Fixpoint drain (rounds fuel : nat) (s : st Val) : option (st Val) :=
     match rounds with 0 => None | S r =>
       match queue s with
       | [] => Some s
